@@ -183,6 +183,7 @@ def gen_law(rng, cfg):
 
 def run(ctx, res):
     genarith.regenerate(ctx.pid, "nnm_products", res)   # regenerated tie: factors and null mean the supermartingale proofs are about
+    genarith.regenerate(ctx.pid, "nnm_estims", res)     # sjm / welford / estimators / bets: skeletons + formulas
     genarith.regenerate(ctx.pid, "nnm_masks", res)      # whole-function skeletons + boundary conventions (p = 0 / p = 1 rules)
     if getattr(ctx, "replay", None):
         nnm.run_replay(ctx, res, None)
